@@ -683,8 +683,8 @@ func (g *gen) hist(mode int) *histCase {
 	}
 	nup := 1 + r.Intn(5)
 	switch mode {
-	case 1: // many small uploads: sequence numbers pass 9 -> 10
-		nup = 10 + r.Intn(3)
+	case 1: // many small uploads on one or two days: sequence numbers pass 9 -> 10 -> 20
+		nup = 10 + r.Intn(16)
 		tags["seq10"] = true
 	case 2: // one big upload: the label queue is flushed in the middle
 		nup = 1
@@ -692,8 +692,13 @@ func (g *gen) hist(mode int) *histCase {
 	}
 	var ids []string
 	seq := 0
+	matching := 0 // mode 1: uploads that hold a record with k=a
+	dayChance := 4
+	if mode == 1 {
+		dayChance = 14 // long runs on one day, sometimes straddling a day change
+	}
 	for i := 0; i < nup; i++ {
-		if r.Chance(1, 4) && i > 0 {
+		if r.Chance(1, dayChance) && i > 0 {
 			day = nextDay(day)
 			seq = 0
 			tags["days"] = true
@@ -701,7 +706,7 @@ func (g *gen) hist(mode int) *histCase {
 		seq++
 		ids = append(ids, fmt.Sprintf("%s.%d", day, seq))
 		u := uploadIn{day: day, user: hx.Pick(r, users)}
-		if i > 0 && day != c.ups[0].day && r.Chance(1, 12) {
+		if mode != 1 && i > 0 && day != c.ups[0].day && r.Chance(1, 12) {
 			// the clock jumps back to the first day: the id <day>.1 exists, NewUpload must fail
 			u.day = c.ups[0].day
 			seq--
@@ -721,7 +726,24 @@ func (g *gen) hist(mode int) *histCase {
 			}
 			switch mode {
 			case 1:
-				f.content = fmt.Sprintf("k: %s\nBenchmark%s 1 %d ns/op\n", hx.Pick(r, vals), hx.Pick(r, bases), r.Intn(9))
+				// 1-3 records per upload (distinct names), matching k:a or not
+				kv := hx.Pick(r, []string{"a", "a", "a", "b", "ab", "1"})
+				var b strings.Builder
+				fmt.Fprintf(&b, "k: %s\n", kv)
+				for n, nm := 1+r.Intn(3), 0; nm < n; nm++ {
+					fmt.Fprintf(&b, "Benchmark%s 1 %d ns/op\n", bases[nm], r.Intn(9))
+					if r.Chance(1, 6) {
+						other := hx.Pick(r, []string{"a", "b"})
+						fmt.Fprintf(&b, "k: %s\n", other)
+						if other == "a" && nm+1 < n {
+							kv = "a"
+						}
+					}
+				}
+				if kv == "a" {
+					matching++
+				}
+				f.content = b.String()
 			case 2:
 				var b strings.Builder
 				nrec := 28 + r.Intn(14)
@@ -754,6 +776,18 @@ func (g *gen) hist(mode int) *histCase {
 		c.ls = append(c.ls, listReq{hx.Pick(r, c.qs), hx.Pick(r, []int{0, 0, 1, 2, 3, -1})})
 	}
 	c.ls = append(c.ls, listReq{"name>", 0}, listReq{"k:a k:b", 0})
+	if mode == 1 {
+		// limits that cut inside, at and beyond the set of matching uploads
+		seen := map[int]bool{}
+		for _, l := range []int{1, 2, 3, matching - 1, matching, matching + 1} {
+			if l > 0 && !seen[l] {
+				seen[l] = true
+				c.ls = append(c.ls, listReq{"k:a", l})
+			}
+		}
+		c.ls = append(c.ls, listReq{"name>", 2}, listReq{"name>", nup - 1}, listReq{"upload>2025", 3},
+			listReq{"k:a name:Foo", 2}, listReq{"k<b", hx.Pick(r, []int{1, 2, 3, 5, 9, 10, 11})}, listReq{"", nup - 1})
+	}
 	for t := range tags {
 		c.tags = append(c.tags, t)
 	}
@@ -859,7 +893,7 @@ func main() {
 	for i := 0; i < nh; i++ {
 		mode := 0
 		switch {
-		case i%40 == 7:
+		case i%20 == 7:
 			mode = 1
 		case i%40 == 23:
 			mode = 2
